@@ -226,8 +226,11 @@ class BaseGridSearch(BaseForecaster):
             # Clone forecaster.
             forecaster = clone(self.forecaster)
 
-            # Set parameters.
-            forecaster.set_params(**params)
+            # Set parameters (estimator-valued ones as private copies: candidates
+            # must not share, or write nested parameters into, the grid's objects).
+            forecaster.set_params(
+                **{name: clone(value, safe=False) for name, value in params.items()}
+            )
 
             # Evaluate.
             out = evaluate(
@@ -293,7 +296,9 @@ class BaseGridSearch(BaseForecaster):
         self.best_index_ = results.loc[:, f"rank_{scoring_name}"].argmin()
         self.best_score_ = results.loc[self.best_index_, f"mean_{scoring_name}"]
         self.best_params_ = results.loc[self.best_index_, "params"]
-        self.best_forecaster_ = clone(self.forecaster).set_params(**self.best_params_)
+        self.best_forecaster_ = clone(self.forecaster).set_params(
+            **{name: clone(value, safe=False) for name, value in self.best_params_.items()}
+        )
 
         # Refit model with best parameters.
         if self.refit:
